@@ -28,6 +28,8 @@ def gen(rng, tier, no, wide=False):
     force = {"memcpy_rate": rng.choice([0.2, 0.4, 0.6])}
     if rng.random() < 0.4:
         force.update({"top_ops": 4, "max_depth": 4, "launch_rate": 0.6, "nstreams": 1})  # > 16 rows per stream
+    if rng.random() < 0.04:
+        force["deep_queue"] = 1100          # more launches outstanding on one stream than any queue limit the tool knows of
     case = G.gen_case(rng, **force)
     case["params"] = {"ranks": sorted(rng.sample(sorted(case["ranks"]), rng.randint(1, len(case["ranks"])))),
                       "gz": rng.random() < 0.5}
